@@ -441,6 +441,11 @@ def add_relations(rng, prog, feat):
                 x, y = y, x  # more often than not the nonexclusive side is the second argument of add_conflict
             cands.insert(0, {"kind": "conflict", "a": x, "b": y, "prio": rng.choice(["U", "L", "R"] if not f["prio"] else ["L", "R", "L", "R", "U"])})
             nonex_side = [z for z in (y, x) if a.nonex(z)][:1]
+            if not nonex_side and cands[0]["prio"] != "U" and rng.random() < 0.6:
+                # ... or only the second argument of a prioritised add_conflict: the order between the two transactions
+                # then comes from the relation alone
+                nonex_side = [y]
+                rng.random()
             if nonex_side and rng.random() < 0.8:
                 # a further transaction that calls only the nonexclusive side: it conflicts with the transaction that
                 # uses both sides through the explicit relation alone (no shared exclusive method covers the pair)
@@ -746,7 +751,7 @@ def generate_cond_once(rng, feat=None):
             branches.append({"bid": f"{cid}b{nb}", "cond": None, "body": body})
         return ["Cond", {"cid": cid, "nonblocking": rng.random() < 0.4, "priority": rng.random() < 0.5, "branches": branches}]
 
-    if rng.random() < 0.55:
+    if rng.random() < 0.65:
         # callees with a body of their own: a pool method forwards to a leaf method, or holds a condition() block
         # over leaf methods (leaves have no validate_arguments: known finding F11 is about validated callees)
         leaves = []
@@ -775,20 +780,33 @@ def generate_cond_once(rng, feat=None):
                 g.reach[mid] |= reach_of(_cond_callees(inner))
         withcond = [m for m in pool if mbody[m] and mbody[m][0][0] == "Cond"]
         plain = [m for m in pool if not mbody[m]]
-        if withcond and plain and rng.random() < 0.6:
+        forwarders = []
+        if withcond and rng.random() < 0.85:
             # a plain forwarding method between a branch and the method that holds a condition() of its own
+            if not plain:
+                fd = {"id": "f0", "iw": 0, "ow": 0, "k": 0, "nonex": False, "comb": None, "single": False, "val": None,
+                      "ready": g.inp() if rng.random() < 0.5 else None, "ret": None}
+                methods.append(fd)
+                g.mdef["f0"] = fd
+                g.reach["f0"] = {"f0"}
+                g.has_val["f0"] = False
+                mbody["f0"] = []
+                pool.append("f0")
+                plain = ["f0"]
             x, y = rng.choice(plain), rng.choice(withcond)
             mbody[x] = [g.call(y, None)]
             g.reach[x] |= g.reach[y]
+            forwarders.append(x)
         pool = pool + leaves
 
     own = pick(pool, sum(rng.random() < 0.25 for _ in pool), set())  # called by the enclosing body itself, outside the block
     ebody = [g.call(mid, None) for mid in own]
     first = block(1, reach_of(own), pool=pool)
     hasbody = [m for m in pool if mbody.get(m)]
-    if hasbody and rng.random() < 0.75 and not (_cond_callees(first) & set(hasbody)):
+    if hasbody and rng.random() < 0.9 and not (_cond_callees(first) & set(hasbody)):
         # make sure that some branch reaches a callee that has a body of its own
-        x = rng.choice(hasbody)
+        fw = [m for m in hasbody if mbody[m][0][0] == "C" and mbody.get(g._resolve(mbody[m][0][1]["m"], []))]
+        x = rng.choice(fw) if fw and rng.random() < 0.8 else rng.choice(hasbody)
         brs = [br for br in first[1]["branches"]
                if g.reach[x].isdisjoint(reach_of(own) | reach_of(_cond_callees(["Cond", {"branches": [br]}])))]
         if brs:
